@@ -25,7 +25,7 @@ ASSUMPTIONS = ["rich renders the summary line and table cells verbatim on a wide
 BOUNDS = {"quick": dict(total=60, n=32, realised=1600, random=40000), "thorough": dict(total=100, n=128, realised=100000, random=2000000)}
 EXHAUSTIVE = {"quick": True, "thorough": True}
 EXHAUSTIVE_SCOPE = {t: f"all profiles (4 non-negative integers) with total <= {b['total']}" for t, b in BOUNDS.items()}
-MINIMUM = {"quick": {"monitor.percentage_contract": 600000, "monitor.rendered_summaries": 3000},
+MINIMUM = {"quick": {"monitor.percentage_contract": 600000, "monitor.rendered_summaries": 3000, "cases.large_total_thresholds": 800},
            "thorough": {"monitor.percentage_contract": 4000000, "monitor.rendered_summaries": 150000}}
 
 
@@ -261,6 +261,33 @@ def run(shard, ctx):
             ctx.distinct(list(p))
             if i % 50 == 0:
                 check_rendered(ctx, report, p, {"profile": list(p), "mode": "injected"})
+        # thresholds at LARGE totals: the verdict's 20 % boundary and the 0.001 % rule sit on windows that only open when the
+        # total is large (a share in (20 %, 20.001 %] needs a total >= 20000); every one of these goes through the renderers
+        totals = [10 ** e for e in range(3, 9)] + [20000, 20005, 99999, 100001, 123457, 5 * 10 ** 5, 2 * 10 ** 6 + 3]
+        totals += [rng.randint(10 ** 3, 10 ** 8) for _ in range(6)]
+        k2 = 0
+        for T in totals:
+            fams = []
+            for d in range(-3, 5):
+                h = T // 5 + d
+                fams += [(T - h, 0, h, 0), (0, T - h, h, 0), ((T - h) // 2, T - h - (T - h) // 2, h, 0)]
+                if T > 10 ** 5:
+                    fams.append((T - h - 1, 0, h, 1))  # an unmaintainable share of at most 0.001 % may show as 0 %
+                u = T // 100000 + d
+                if 0 <= u <= T:
+                    fams += [(T - u, 0, 0, u), (T - u - 1, 0, u, 1 if T - u - 1 >= 0 else 0)]
+                half = T // 2 + d
+                fams.append((0, 0, half, T - half))
+            for p in fams:
+                if min(p) < 0:
+                    continue
+                k2 += 1
+                if k2 % shard["parts"] != shard["part"]:
+                    continue
+                one_injected(ctx, report, p)
+                check_rendered(ctx, report, p, {"profile": list(p), "mode": "injected"})
+                ctx.distinct(list(p))
+                ctx.count("cases.large_total_thresholds")
         # realised profiles: real measurement lists, real quality_profile, real renderers
         done = 0
         tries = 0
